@@ -55,7 +55,13 @@ def run_case(tape, tier):
         sleeps.append(dict(over=tape.pick("overshoot", [0.0, 0.0, 0.0, 1e-4, 0.5 * T]),
                            js=tape.pick("j_sleep", [0.0] * 9 + [0.3 * T, 2.5 * T, 100.0]),
                            stall=tape.pick("stall", [1.0] * 9 + [0.5, 0.0])))
-    script = dict(tock_c=tock_c, tock_run=tock_run if change else None, gap=gap, j0=j0, cycles=cyc, sleeps=sleeps)
+    # backward steps that land exactly at a wall-clock read (between the read that ended a wait and the restart of the
+    # timer, inside start(), ...): read index -> step
+    read_steps = {}
+    for _ in range(tape.draw("n_read_steps", 3)):
+        read_steps[tape.draw("read_ix", 8 * n + 8)] = tape.pick("j_read", [0.3 * T, 2.5 * T, 10.0])
+    script = dict(tock_c=tock_c, tock_run=tock_run if change else None, gap=gap, j0=j0, cycles=cyc, sleeps=sleeps,
+                  read_steps=sorted(read_steps.items()))
 
     clock = sched.SimClock()
     J = [0.0]           # total backward movement of the wall clock
@@ -89,6 +95,15 @@ def run_case(tape, tier):
             res.faults["backward_step_in_sleep"] += 1
         return extra
     clock.on_sleep = on_sleep
+    armed = [False]
+
+    def on_time(c):
+        if armed[0] and c.reads in read_steps:
+            j = read_steps.pop(c.reads)
+            c.offset -= j
+            J[0] += j
+            res.faults["backward_step_at_clock_read"] += 1
+    clock.on_time = on_time
 
     class Pacer(doing.Doer):
         def recur(s, tyme):
@@ -123,6 +138,8 @@ def run_case(tape, tier):
                 res.faults["tock_changed_before_run"] += 1
             j_before = J[0]
             t_do = clock.true
+            armed[0] = True
+            clock.reads = 0
             doist.do()
         except _Stuck:
             problem = ("pacing-wait-never-ends", "more than 5000 sleeps in a run of %d cycles: the wait for the next cycle does not end "
